@@ -179,7 +179,13 @@ def run_scenario(mod, sc: dict, keep: bool = False) -> Outcome:
     out = Outcome()
     try:
         try:
-            mod.execute(sc, ctx)
+            if getattr(mod, "GUARD_KERNELS", False):
+                from .kguard import KernelGuard
+
+                with KernelGuard(mod.ID, ctx):
+                    mod.execute(sc, ctx)
+            else:
+                mod.execute(sc, ctx)
         except Violation as v:
             out.violation = v.cls
             out.detail = v.detail[:2000]
